@@ -134,11 +134,17 @@ class Run:
         w = core._tls.worker
         if frame.f_code.co_name == '__init__' and 'study' in frame.f_locals:
           self.study_of_worker[w.idx] = frame.f_locals['study']
-        if lab[0] == 'L' and (lab[1], lab[2]) in inc_nf:
-          fb = self.cur_fb[w.idx]
-          self.fed_log.append((fb._study, fb.id))
       return lab
+    import linecache
+    def after_gate(w, lab, frame):
+      # the statement `self._num_feedbacks += 1` of DNAGenerator.feedback is about to run on the main algorithm:
+      # the worker's current trial is being reported (recognised by its source text, independent of the line map)
+      if frame.f_code.co_name == 'feedback' and frame.f_locals.get('self') is self.algo and \
+         linecache.getline(frame.f_code.co_filename, frame.f_lineno).strip() == 'self._num_feedbacks += 1':
+        fb = self.cur_fb[w.idx]
+        self.fed_log.append((fb._study, fb.id))
     self.ctl = core.Controller([mk(i) for i in range(n)], strategy_fn, gate_of, lm.accept_code, acquire_label=lm.acquire_label, step_timeout=20.0)
+    self.ctl.after_gate = after_gate
     self.ctl.run()
     for w in self.ctl.workers:
       if w.error is not None:
@@ -280,7 +286,8 @@ def oracle(run):
         hit('C16/delivery/next/trial-in-two-groups', 'trial %d was delivered to groups %s' % (tid, sorted(gs)))
     # feedback exactly once
     fed = collections.Counter(tid for (s2, tid) in run.fed_log if s2 is s)
-    for t in s._trials:
+    observable = bool(run.fed_log) or getattr(run.algo, '_num_feedbacks', 0) == 0     # the reporting statement was recognised
+    for t in (s._trials if observable else []):
       want = 1 if (t.status == 'COMPLETED' and not t.infeasible) else 0
       if fed[t.id] != want:
         hit('C16/feedback-once/done-or-skip/%s' % ('reported-%d-times' % fed[t.id] if fed[t.id] > 1 else 'not-reported'),
